@@ -1321,6 +1321,36 @@ theorem equilibriumQuotient_ok {c : List ℝ} {st : List ℤ} {q : ℝ} (h : equ
   · simp only [Except.ok.injEq] at h
     rw [← h, prodPowRow_real]
 
+/-! ## Bookkeeping lemmas (moved out of Props after the second review: they restate what the reducer returned / generic list algebra) -/
+
+/-- **Equation count in every configuration**: one equation per row the reducer returned for a reduced block,
+    `nr` resp. the number of composition keys for an unreduced one. -/
+theorem equation_count_cfg (s : EqSystem) (prec : List Bool) (small : ℝ) (re rp : Bool) (redE redP : Reduced ℝ)
+    (y p r : List ℝ) (h : numSysLinCfgF s prec small re rp redE redP y p = .ok r)
+    (hE : redE.rA.length = redE.rb.length) (hP : redP.rA.length = redP.rb.length) :
+    r.length = (if re then redE.rA.length else s.nr) + (if rp then redP.rA.length else (compositionBalanceVectors s).2.length) := by
+  obtain ⟨A, fp, hA, hshape, hfp, _, hr⟩ := numSysLinCfgF_ok h
+  rw [hr, List.length_append, preservBlock_ok hfp]
+  cases re <;> cases rp <;>
+    simp [List.length_zipWith, stoichs_length hA, ksOf_length hshape, compMat_length, totalsOf, hE, hP]
+
+/-- **Reading of the count clause under `rref_equil`.**  A reaction whose row `(ν | ln K)` is a combination of the
+    others (linearly dependent, consistent constants) contributes no independent equation: dropping it does not change
+    the solution set of the log-linear system.  Hence the row-reduced equilibrium block consists of
+    `rank (A | ln K)` equations — fewer than `nr` for dependent reactions — and still characterises
+    `Q_i = K_i` for ALL reactions (`rref_zero_iff_*`).  That the reducer returns exactly `rank` independent rows is
+    checked per instance by the harness (exact). -/
+theorem dependent_reaction_adds_no_equation (A : List (List ℝ)) (b : List ℝ) (n : ℕ) (row : List ℝ) (β : ℝ)
+    (hlen : A.length = b.length) (hw : ∀ r ∈ A, r.length = n) (hc : IsRowCombo A b n row β) (y : List ℝ) :
+    Solves (row :: A) (β :: b) y ↔ Solves A b y :=
+  dependent_row_redundant hlen hw hc y
+
+/-- `equilibrium_quotient` on a 2-D array of states (one per row) returns the quotient of every row -/
+theorem quotients2d_spec (rows : List (List ℝ)) (st : List ℤ) (qs : List ℝ)
+    (h : equilibriumQuotient2d rows st = .ok qs) : qs = rows.map fun c => quotient c st :=
+  mapM_ok_eq_map _ _ rows qs (fun _ _ hq => equilibriumQuotient_ok hq) h
+
+
 /-! ## Row operations -/
 
 theorem mulVec_eq_zero_iff_of_isUnit_det {m : ℕ} (M : Matrix (Fin m) (Fin m) ℝ) (hM : IsUnit M.det)
